@@ -1237,6 +1237,9 @@ def run(ctx):
     for name in ("wellformed", "malformed", "wellformed-wide", "malformed-wide"):
         streams.append((name, to_lines("tplrender", gen[name]), True))
     streams.append(("tail-echo", to_lines("tplrender", T.c01_tail_echo(ctx)), True))   # unresolved {var:n&me} ending the buffer (round c)
+    nf = T.c01_narrow_fields(ctx, drv)                 # every 8/16-bit tag field at limit-1 / limit / limit+1 (round g)
+    streams.append(("narrow-fields", to_lines("tplrender", nf["compared"]) + to_lines("tpltags", nf["tags"]), True))
+    T.c01_narrow_big(ctx, exe, nf["faults-only"])
     streams.append(("tagtree", to_lines("tpltags", gen["tagtree"]), True))
     streams.append(("g3", to_lines("tplrender", gen["g3"]), False))
     # the cache entry point (C17 uses the verdict; here only faults count)
@@ -1285,5 +1288,5 @@ def run(ctx):
 
 
 FINISH = dict(level="proof",
-              rule="every 6th (quick) / 2nd (thorough) line repeated in SSE2 and AVX2 builds of the harness; grammar-generated templates (all seven tag kinds, nesting <= 3, both quote kinds and attribute orders) x value trees of all kinds; malformed: truncation at sampled (quick) / every (thorough) offset, delete/duplicate/swap/replace one delimiter, splices, fragment soup, bracket/index edge names, nesting 9..17 (..300 thorough), names of 254..768 units, attribute padding 240..600 and >= 65536; every line in width 1, every 5th (quick) / all (thorough) in widths 2, 4, wchar_t with units beyond 8 bits; tail-echo: unresolved {var:NAME} with & / partial entities in NAME ending the exact-size buffer, four widths; tag trees compared textually; non-trivial = the template contains '{' or '<'",
+              rule="every 6th (quick) / 2nd (thorough) line repeated in SSE2 and AVX2 builds of the harness; grammar-generated templates (all seven tag kinds, nesting <= 3, both quote kinds and attribute orders) x value trees of all kinds; malformed: truncation at sampled (quick) / every (thorough) offset, delete/duplicate/swap/replace one delimiter, splices, fragment soup, bracket/index edge names, nesting 9..17 (..300 thorough), names of 254..768 units, attribute padding 240..600 and >= 65536; every line in width 1, every 5th (quick) / all (thorough) in widths 2, 4, wchar_t with units beyond 8 bits; narrow-fields: the round-g boundary templates (tplrender + tag dump against the model, which truncates with the generated widths; >= 20k units on the real code only in the quick tier) with truncated variants; tail-echo: unresolved {var:NAME} with & / partial entities in NAME ending the exact-size buffer, four widths; tag trees compared textually; non-trivial = the template contains '{' or '<'",
               checker_cmd="cd lean && lake build Qentem.Props.C01 && lake env lean <#print axioms of the listed theorems>")
